@@ -5,6 +5,7 @@ package vnet
 
 import (
 	"context"
+	"errors"
 	"fmt"
 	"sync"
 	"time"
@@ -18,6 +19,9 @@ const (
 	Drop    = "drop"
 	Dup     = "dup"
 	Delay   = "delay"
+	// Fail: the transport's send function returns an error for this packet
+	// (nothing is put on the wire).
+	Fail = "fail"
 )
 
 // Decision is the fate of one packet (by ordinal on its direction).
@@ -293,6 +297,9 @@ func (l *Link) Inject(b []byte) {
 	l.signal()
 }
 
+// ErrSendFailed is what Send returns for a Fail decision.
+var ErrSendFailed = errors.New("transport: send failed")
+
 // Send is the sendFunc of the sending endpoint.
 func (l *Link) Send(ctx context.Context, b []byte) error {
 	if err := ctx.Err(); err != nil {
@@ -331,6 +338,11 @@ func (l *Link) Send(ctx context.Context, b []byte) error {
 		d = Decision{Kind: Drop}
 	}
 	dec := d.Kind
+	if d.Kind == Fail {
+		l.lastFaultAt = time.Now()
+		l.trace.add(TraceEvent{T: l.trace.Now(), Dir: l.Name, Ev: "sendfail", Type: typ, Seq: seq, Fl: fl, Len: len(cp), Dec: "fail", Ord: ord})
+		return ErrSendFailed
+	}
 	switch d.Kind {
 	case Drop:
 		l.Dropped++
